@@ -90,14 +90,16 @@ def run_one(patch, pid, tier="quick", seed="1"):
     res = "CAUGHT" if (p.returncode == 1 and any(l.startswith("VIOLATION") for l in viol)) else ("MISSED(exit %d)" % p.returncode)
     if res != "CAUGHT":
         # the property's further binaries (run by ./check after the main one)
-        for xpkg, xbin, tag in load_extra().get(pid, []):
+        for ent in load_extra().get(pid, []):
+            xpkg, xbin, tag = ent[0], ent[1], ent[2]
+            xargs = list(ent[3]) if len(ent) > 3 else []
             t = time.time()
             pb = sh(["cargo", "build", "--release", "--offline", "-p", xpkg, "--bin", xbin], cwd=HM, env=env)
             if pb.returncode != 0:
                 print(pb.stdout[-3000:]); continue
             bt += time.time() - t
             t = time.time()
-            px = sh([os.path.join(HM, "target", "release", xbin), "--tier", tier, "--seed", seed], cwd=VR,
+            px = sh([os.path.join(HM, "target", "release", xbin)] + xargs + ["--tier", tier, "--seed", seed], cwd=VR,
                     env=dict(env, VERIF_EVIDENCE_SUFFIX="." + tag))
             rt += time.time() - t
             xv = [l for l in px.stdout.splitlines() if l.startswith("VIOLATION") or "] violation:" in l]
